@@ -30,7 +30,7 @@ REQUIRED_OBS = ["expiry_during_connected_notification", "full_buffer_flushed_aft
 BUDGET = {"quick": 100, "thorough": 1500}
 
 CAP = 10
-POLS = ["short", "conn", "idem", "long", "zero", "neg", "hour"]
+POLS = ["short", "conn", "idem", "long", "zero", "neg", "hour", "forever"]
 
 
 def gen_script(rnd):
@@ -156,6 +156,15 @@ def with_write_faults(rnd=None):
                             for i in range(held + 1)]
                     ops += [["adv", back + busy + 3.0], ["q"]]
                     out.append(ops)
+    # a held message whose write fails on the first connection and whose lifetime ends before
+    # the next connection is there: the retry does not bring it back to life
+    for pol, L in (("short", 0.5), ("idem", 30.0), ("long", 120.0)):
+        for a, d in ((0.6 * L, 0.5 * L), (L - 0.2, 0.3), (L - 0.2, 1.9), (0.5 * L, 0.5 * L + 1.0)):
+            for held in (1, 3):
+                ops = [["net", "accept", a, 1], ["net", "accept", d], ["fin"], ["q"]]
+                ops += [["send", S.KINDS[i % 3], pol, "inline"] for i in range(held)]
+                ops += [["adv", a + d + 3.0], ["q"]]
+                out.append(ops)
     # sends that arrive from the connected notification: the client already calls itself
     # connected, but the held messages have not been written yet
     for held in (8, 9, 10):
